@@ -123,6 +123,14 @@ func runMutants(o checkOpts) []MutantResult {
 
 func cmdMutants(args []string) int {
 	o := checkOpts{repo: "/repo", verif: "/verif"}
+	// a frozen copy of the repository / of lock + known findings can be used, so that a long
+	// corpus run is not disturbed by work going on in /repo
+	if r := os.Getenv("ZVC_REPO"); r != "" {
+		o.repo = r
+	}
+	if v := os.Getenv("ZVC_VERIF"); v != "" {
+		o.verif = v
+	}
 	if len(args) < 1 {
 		fmt.Println("usage: zvc mutants <PROP>")
 		return 2
